@@ -9,6 +9,7 @@ import (
 	"net/http"
 	"slices"
 	"strings"
+	"sync"
 
 	"github.com/issue9/mux/v9/types"
 )
@@ -32,6 +33,9 @@ var (
 	methodIndexMap map[string]int // 各个请求方法对应的数值
 
 	methodIndexes = map[int]methodIndexEntity{}
+
+	// methodIndexes 由所有 Tree 实例共享，需要加锁。
+	methodIndexesLocker sync.Mutex
 )
 
 const methodNotAllowed = "" // 表示 405 的处理方法在各个节点上的名称。
@@ -48,9 +52,13 @@ type methodIndexEntity struct {
 	options string
 }
 
-func buildMethodIndexes(index int) {
-	if _, found := methodIndexes[index]; found {
-		return
+// 返回 index 对应的 [methodIndexEntity]，如果不存在则会生成并保存在 methodIndexes。
+func buildMethodIndexes(index int) *methodIndexEntity {
+	methodIndexesLocker.Lock()
+	defer methodIndexesLocker.Unlock()
+
+	if e, found := methodIndexes[index]; found {
+		return &e
 	}
 
 	methods := make([]string, 0, len(Methods))
@@ -61,27 +69,46 @@ func buildMethodIndexes(index int) {
 	}
 	slices.Sort(methods)
 
-	methodIndexes[index] = methodIndexEntity{
+	e := methodIndexEntity{
 		methods: methods,
 		options: strings.Join(methods, ", "),
 	}
+	methodIndexes[index] = e
+	return &e
 }
 
 func (n *node[T]) buildMethods() {
-	n.methodIndex = 0
+	index := 0
 	for method := range n.handlers {
-		n.methodIndex += methodIndexMap[method]
+		index += methodIndexMap[method]
 	}
 	if n.root.hasTrace {
-		n.methodIndex += methodIndexMap[http.MethodTrace]
+		index += methodIndexMap[http.MethodTrace]
 	}
-	buildMethodIndexes(n.methodIndex)
+	n.setMethodIndex(index)
 }
 
-func (n *node[T]) AllowHeader() string { return methodIndexes[n.methodIndex].options }
+// 修改 methodIndex，同时以原子操作的方式更新 AllowHeader 和 Methods 的返回值，
+// 这两个方法会在未加锁的情况下由用户的处理函数调用。
+func (n *node[T]) setMethodIndex(index int) {
+	n.methodIndex = index
+	n.methods.Store(buildMethodIndexes(index))
+}
+
+func (n *node[T]) AllowHeader() string {
+	if e := n.methods.Load(); e != nil {
+		return e.options
+	}
+	return ""
+}
 
 // Methods 当前节点支持的请求方法
-func (n *node[T]) Methods() []string { return methodIndexes[n.methodIndex].methods }
+func (n *node[T]) Methods() []string {
+	if e := n.methods.Load(); e != nil {
+		return e.methods
+	}
+	return nil
+}
 
 // 添加一个处理函数
 func (n *node[T]) addMethods(h T, pattern string, ms []types.Middleware[T], methods ...string) error {
@@ -126,16 +153,16 @@ func (tree *Tree[T]) buildMethods(num int, methods ...string) {
 	}
 
 	// 即使所有接口都没了，也有 OPTIONS * 存在，所以始终有 OPTIONS 和可能的 TRACE 存在。
-	tree.node.methodIndex = methodIndexMap[http.MethodOptions]
+	index := methodIndexMap[http.MethodOptions]
 	if tree.hasTrace {
-		tree.node.methodIndex += methodIndexMap[http.MethodTrace]
+		index += methodIndexMap[http.MethodTrace]
 	}
 
 	for m, num := range tree.methods {
 		if num > 0 {
-			tree.node.methodIndex += methodIndexMap[m]
+			index += methodIndexMap[m]
 		}
 	}
 
-	buildMethodIndexes(tree.node.methodIndex)
+	tree.node.setMethodIndex(index)
 }
